@@ -676,6 +676,9 @@ func c08Apply(t *testing.T, r *Rec, c *c08Case) (string, string) {
 	r.Count("class." + c.class + ":" + out + ":" + c.reason)
 	r.Count("expect." + c.expect)
 	r.Count("mut." + c.class)
+	if strings.HasPrefix(c.class, "forge-") {
+		r.Count("forge." + c.client + "." + c.kind)
+	}
 	r.Count("client." + c.client + "." + c.kind + ":" + out)
 	if out == "panic" {
 		r.Count("panic." + c.class)
@@ -833,6 +836,9 @@ var c08Classes = []string{
 	"json-extra-field", "json-broken", "json-nil", "json-empty", "json-wrong-type", "sp-value-field",
 	"node-flip-acct", "node-flip-stor", "node-drop-acct", "node-drop-stor", "node-none-acct", "node-none-stor", "node-extra", "node-shuffle", "node-badhex",
 	"other-slot-proof", "other-slot-nodes", "other-acct-record", "other-acct-proof", "other-state-record", "other-state-storage",
+	// consistent multi-component forgeries: every single component verifies on its own, the link between them is broken
+	"forge-storage-other-contract", "forge-storage-other-contract", "forge-storage-offchain", "forge-storage-offchain",
+	"forge-account-other-xibc-storage", "forge-account-other-xibc-storage", "forge-fields-other-account", "field-storagehash-other-contract",
 	"field-nonce", "field-balance", "field-codehash", "field-storagehash", "field-address", "key-other",
 	"sp-count-0", "sp-count-2", "sp-null", "sp-second-null",
 	"value-bitflip", "value-short31", "value-long33", "value-trimmed", "value-zero32",
@@ -1062,6 +1068,70 @@ func c08Gen(r *Rec, w *c08World) *c08Case {
 		if otherState.accts[string(w.contract)].storageRoot != st.accts[string(w.contract)].storageRoot {
 			c.breaking = true
 		}
+	case "forge-storage-other-contract":
+		// genuine account proof of the configured contract + storageHash and storage proof of the SECOND contract's trie,
+		// claimed value = what that trie holds at the derived slot
+		dAcct := st.accts[string(w.other)]
+		cAcct := st.accts[string(w.contract)]
+		var q c08Path
+		found := 0
+		for _, i := range r.Rng.Perm(len(w.paths)) {
+			cand := w.paths[i]
+			sl := string(c08Slot(cand.kind, cand.src, cand.dst, cand.seq))
+			dv, ok := dAcct.storage[sl]
+			if !ok {
+				continue
+			}
+			cv, cok := cAcct.storage[sl]
+			if !cok || !bytes.Equal(cv, dv) {
+				q, found = cand, 2 // the configured contract does not hold that value there
+				break
+			}
+			if found == 0 {
+				q, found = cand, 1
+			}
+		}
+		if found > 0 {
+			c.kind, c.src, c.dst, c.seq = q.kind, q.src, q.dst, q.seq
+			slot = c08Slot(c.kind, c.src, c.dst, c.seq)
+			rec = st.genuine(w.contract, slot)
+			o := st.genuine(w.other, slot)
+			rec.StorageHash, rec.StorageProof = o.StorageHash, o.StorageProof
+			c.value = c08Pad32(dAcct.storage[string(slot)])
+			c.breaking = true
+		} else {
+			c.class = "base"
+		}
+	case "forge-storage-offchain":
+		// genuine account proof + a storage trie built off-chain that holds an arbitrary word at the derived slot
+		t := c08NewTrie()
+		for i, n := 0, []int{0, 1, 5, 40}[r.Rng.Intn(4)]; i < n; i++ {
+			enc, _ := rlp.EncodeToBytes(c08RandValue(r))
+			t.Update(c08Rand(r, 32), enc)
+		}
+		v := c08RandValue(r)
+		enc, _ := rlp.EncodeToBytes(v)
+		t.Update(crypto.Keccak256(slot), enc)
+		rec.StorageHash = t.Hash().Hex()
+		rec.StorageProof = []*c08SP{{Key: hexutil.Encode(slot), Value: hexutil.EncodeBig(new(big.Int).SetBytes(v)), Proof: c08Prove(t, crypto.Keccak256(slot))}}
+		c.value = c08Pad32(v)
+		c.breaking = true
+	case "forge-account-other-xibc-storage":
+		// genuine storage proof and storageHash of the XIBC contract + account proof / nonce / balance / codeHash of another account
+		o := st.genuine(w.other, slot)
+		rec.AccountProof, rec.Nonce, rec.Balance, rec.CodeHash = o.AccountProof, o.Nonce, o.Balance, o.CodeHash
+		if r.Rng.Intn(3) == 0 { // … under the other account's address, configured address unchanged
+			rec.Address = o.Address
+		}
+		c.breaking = true
+	case "forge-fields-other-account":
+		// genuine proofs, but nonce / balance / codeHash claimed from the other account (storageHash genuine)
+		o := st.genuine(w.other, slot)
+		rec.Nonce, rec.Balance, rec.CodeHash = o.Nonce, o.Balance, o.CodeHash
+		c.breaking = true
+	case "field-storagehash-other-contract":
+		rec.StorageHash = st.accts[string(w.other)].storageRoot.Hex()
+		c.breaking = true
 	case "field-nonce":
 		rec.Nonce = hexutil.EncodeUint64(st.accts[string(w.contract)].nonce + 1 + uint64(r.Rng.Intn(3)))
 		c.breaking = true
